@@ -232,11 +232,49 @@ def rotate90Origin (t : Transform) (srcX srcY : Int) (height : Nat) : Int × Int
 def rotate270Origin (t : Transform) (srcX srcY : Int) (width : Nat) : Int × Int :=
   (srcY + fixedToInt (wrapS32 (t.m02 + 32768 - 1)), -srcX + fixedToInt (wrapS32 (t.m12 + 32768 - 1)) - width)
 
-/- `blt_rotated_90/270` split the destination columns into a leading strip, cache-line wide tiles and a
-   trailing strip (depending on the destination ADDRESS) and call the trivial blit on each with the matching
-   source offset; the union is the trivial blit of the whole rectangle.  The split is not modelled: the
-   composite is modelled by the trivial blit, and the library's tiling is compared with it by the
-   correspondence (`rotate-90` / `rotate-270` requests at destination offsets 0..5, widths 1..24). -/
+/-- the column split of `blt_rotated_90/270` for a destination whose first pixel lies `mis` pixels after a
+    cache-line boundary (`mis = ((uintptr_t)dst & (CACHE_LINE_SIZE-1)) / sizeof (pix_type)`, `tile = TILE_SIZE`):
+    `(leading_pixels, W after both reductions, trailing_pixels)` -/
+def tileSplit (tile mis W : Nat) : Nat × Nat × Nat :=
+  -- if ((uintptr_t)dst & (CACHE_LINE_SIZE - 1)) { leading = TILE_SIZE - mis; if (leading > W) leading = W; W -= leading }
+  let leading := if mis ≠ 0 then (if tile - mis > W then W else tile - mis) else 0
+  let W1 := W - leading
+  -- if ((uintptr_t)(dst + W) & (CACHE_LINE_SIZE - 1)) { trailing = that; if (trailing > W) trailing = W; W -= trailing }
+  let e := (mis + leading + W1) % tile
+  let trailing := if e ≠ 0 then (if e > W1 then W1 else e) else 0
+  (leading, W1 - trailing, trailing)
+
+/-- number of iterations of `for (x = 0; x < W; x += TILE_SIZE)` -/
+def tileCount (tile M : Nat) : Nat := (M + tile - 1) / tile
+
+/-- `blt_rotated_90`: one destination row `y`, strip by strip.  Every strip is `blt_rotated_90_trivial (dst + off,
+    src + src_stride * off, n, H)`, i.e. columns `off … off+n-1` get `src[off + x][H - y - 1]`; the strips are written
+    at consecutive offsets (`Props.C08Loops.tileSplit_exact`), so the row is their concatenation. -/
+def bltRotated90Row (b : Bits) (sx sy : Int) (tile mis W H y : Nat) : List Nat :=
+  let s := tileSplit tile mis W
+  let strip (off n : Nat) : List Nat := (List.range n).map fun (x : Nat) => b.fetch (sx + ((H : Int) - y - 1)) (sy + off + x)
+  strip 0 s.1 ++
+  ((List.range (tileCount tile s.2.1)).map fun (k : Nat) => strip (s.1 + k * tile) tile).flatten ++
+  strip (s.1 + s.2.1) s.2.2
+
+def bltRotated90 (b : Bits) (sx sy : Int) (tile mis W H : Nat) : List (List Nat) :=
+  (List.range H).map fun (y : Nat) => bltRotated90Row b sx sy tile mis W H y
+
+/-- `blt_rotated_270`: strips `blt_rotated_270_trivial (dst + off, src + src_stride * srcOff, n, H)`, i.e. column
+    `off + c` gets `src[srcOff + (n - 1 - c)][y]`, with the source offsets of the C code:
+    leading `W - leading`; after `src += trailing * src_stride` the tile at `x`: `W' - x - TILE_SIZE` (`W'` the
+    reduced width); trailing: `src - trailing * src_stride`, i.e. offset 0 of the original pointer -/
+def bltRotated270Row (b : Bits) (sx sy : Int) (tile mis W y : Nat) : List Nat :=
+  let s := tileSplit tile mis W
+  let strip (srcOff : Int) (n : Nat) : List Nat :=
+    (List.range n).map fun (c : Nat) => b.fetch (sx + y) (sy + srcOff + ((n : Int) - 1 - c))
+  strip ((W : Int) - s.1) s.1 ++
+  ((List.range (tileCount tile s.2.1)).map fun (k : Nat) =>
+      strip ((s.2.2 : Int) + ((s.2.1 : Int) - k * tile - tile)) tile).flatten ++
+  strip 0 s.2.2
+
+def bltRotated270 (b : Bits) (sx sy : Int) (tile mis W H : Nat) : List (List Nat) :=
+  (List.range H).map fun (y : Nat) => bltRotated270Row b sx sy tile mis W y
 
 def fastRotate90 (b : Bits) (t : Transform) (srcX srcY : Int) (width height : Nat) : List (List Nat) :=
   let o := rotate90Origin t srcX srcY height
@@ -307,6 +345,55 @@ def fastBilinearCover (b : Bits) (t : Transform) (srcX srcY : Int) (width height
     some (bilinearCoverRows b (wrapS32 (p.x - 32768)) t.m00 t.m11 width height (wrapS32 (p.y - 32768)))
   | _ => none
 
+/-! ### (c, literal) the two-line cache of `bilinear_info_t` -/
+
+/-- `line_t`: the source row a buffer was computed for (−1 = none yet) and the buffer -/
+structure Line where
+  y : Int
+  buffer : List Int
+deriving Repr, DecidableEq, Inhabited
+
+/-- `bilinear_info_t` without `x` (constant) and `y` (threaded separately): `lines[0]`, `lines[1]` -/
+structure CoverCache where
+  l0 : Line
+  l1 : Line
+deriving Repr, DecidableEq, Inhabited
+
+/-- `fast_bilinear_cover_iter_init`: `info->lines[k].y = -1` (the buffers are uninitialised memory: `[]`) -/
+def CoverCache.init : CoverCache := ⟨⟨-1, []⟩, ⟨-1, []⟩⟩
+
+/-- `&info->lines[y & 0x01]` -/
+def CoverCache.get (c : CoverCache) (y : Int) : Line := if y % 2 = 0 then c.l0 else c.l1
+def CoverCache.set (c : CoverCache) (y : Int) (l : Line) : CoverCache := if y % 2 = 0 then { c with l0 := l } else { c with l1 := l }
+
+/-- `if (line->y != y) fetch_horizontal (&image->bits, line, y, fx, ux, width);` (which ends with `line->y = y`) -/
+def CoverCache.ensure (c : CoverCache) (b : Bits) (fx ux : Int) (width : Nat) (y : Int) : CoverCache :=
+  if (c.get y).y ≠ y then c.set y ⟨y, fetchHorizontal b y ux width fx⟩ else c
+
+/-- one call of `fast_fetch_bilinear_cover` as it is: lines looked up in / stored to the cache -/
+def coverCachedRow (b : Bits) (fx ux : Int) (width : Nat) (c : CoverCache) (fy : Int) : CoverCache × List Nat :=
+  let y0 := fixedToInt fy
+  let y1 := y0 + 1
+  let disty := (bilinearWeight fy).toNat <<< 1
+  let c := c.ensure b fx ux width y0
+  let c := c.ensure b fx ux width y1
+  (c, List.zipWith (fun t bt => vertEntry t bt disty) (c.get y0).buffer (c.get y1).buffer)
+
+/-- successive calls; `info->y += matrix[1][1]` after each -/
+def coverCachedRows (b : Bits) (fx ux uy : Int) (width : Nat) : Nat → CoverCache → Int → List (List Nat)
+  | 0, _, _ => []
+  | n + 1, c, fy =>
+    let r := coverCachedRow b fx ux width c fy
+    r.2 :: coverCachedRows b fx ux uy width n r.1 (wrapS32 (fy + uy))
+
+/-- the iterator as it is (init + `height` calls) -/
+def fastBilinearCoverCached (b : Bits) (t : Transform) (srcX srcY : Int) (width height : Nat) :
+    Option (List (List Nat)) :=
+  match transformPoint3d t (pixelCentre srcX srcY) with
+  | some (true, p) =>
+    some (coverCachedRows b (wrapS32 (p.x - 32768)) t.m00 t.m11 width height CoverCache.init (wrapS32 (p.y - 32768)))
+  | _ => none
+
 /-! ### (c') the scaled-bilinear scanline functions (FAST_BILINEAR_MAINLOOP_INT, middle part) -/
 
 /-- the main loop subtracts `pixman_fixed_1 / 2` once (`v.vector[0] -= pixman_fixed_1 / 2`), then every
@@ -316,5 +403,70 @@ def fastBilinearCover (b : Bits) (t : Transform) (srcX srcY : Int) (width height
 def bilinearScanlineCoords (ux : Int) : Nat → Int → List (Int × Int)
   | 0, _ => []
   | n + 1, vx => (fixedToInt vx, bilinearWeight vx) :: bilinearScanlineCoords ux n (wrapS32 (vx + ux))
+
+/-! ### (c'') FAST_BILINEAR_MAINLOOP_INT: zones of a PAD / NONE scanline, vertical weights -/
+
+/-- what a scaled-bilinear scanline function consumes for one pixel of one source row: the pixel pair
+    `src[vx >> 16], src[(vx >> 16) + 1]` and the `vx` whose `pixman_fixed_to_bilinear_weight` it uses -/
+structure HTap where
+  left : Nat
+  right : Nat
+  vx : Int
+deriving Repr, DecidableEq, Inhabited
+
+/-- the pair/weight sequence of `scanline_func (…, src, …, n, …, vx, unit_x, …)` for the row `src` -/
+def bilinearScanlineTaps (src : Int → Nat) (ux : Int) : Nat → Int → List HTap
+  | 0, _ => []
+  | n + 1, vx => ⟨src (fixedToInt vx), src (fixedToInt vx + 1), vx⟩ :: bilinearScanlineTaps src ux n (wrapS32 (vx + ux))
+
+/-- `src_type_t buf[2] = {a, b}` -/
+def buf2 (a c : Nat) : Int → Nat := fun i => if i = 0 then a else c
+
+/-- `bilinear_pad_repeat_get_scanline_bounds`: `(left_pad, left_tz, width, right_tz, right_pad)` -/
+def bilinearPadBounds (W vx ux width : Int) : Int × Int × Int × Int × Int :=
+  let r1 := padRepeatGetScanlineBounds W vx ux width
+  let r2 := padRepeatGetScanlineBounds W (wrapS32 (vx + 65536)) ux width
+  let left_pad := r2.2.1
+  let left_tz := r1.2.1 - r2.2.1
+  let right_tz := r2.2.2 - r1.2.2
+  let right_pad := r1.2.2
+  (left_pad, left_tz, width - (left_pad + left_tz + right_tz + right_pad), right_tz, right_pad)
+
+/-- REPEAT_PAD row, one source row (`src1` or `src2`): left pad from `buf = {src[0], src[0]}` with `vx = unit_x = 0`,
+    the middle from the row, right pad from `{src[w-1], src[w-1]}`; `vx` is already advanced past the left pad
+    (`v.vector[0] += left_pad * unit_x`, transition zones merged into the pads) -/
+def bilinearPadRowTaps (W : Int) (row : Int → Nat) (vx ux : Int) (lp w rp : Nat) : List HTap :=
+  bilinearScanlineTaps (buf2 (row 0) (row 0)) 0 lp 0 ++
+  bilinearScanlineTaps row ux w vx ++
+  bilinearScanlineTaps (buf2 (row (W - 1)) (row (W - 1))) 0 rp 0
+
+/-- REPEAT_NONE row: zero pad, left transition `{0, src[0]}` at `pixman_fixed_frac (vx)`, middle, right transition
+    `{src[w-1], 0}`, zero pad; `vx` advanced as in the C code -/
+def bilinearNoneRowTaps (W : Int) (row : Int → Nat) (vx ux : Int) (lp ltz w rtz rp : Nat) : List HTap :=
+  let vx1 := wrapS32 (vx + ltz * ux)
+  let vx2 := wrapS32 (vx1 + w * ux)
+  bilinearScanlineTaps (buf2 0 0) 0 lp 0 ++
+  bilinearScanlineTaps (buf2 0 (row 0)) ux ltz (fixedFrac vx) ++
+  bilinearScanlineTaps row ux w vx1 ++
+  bilinearScanlineTaps (buf2 (row (W - 1)) 0) ux rtz (fixedFrac vx2) ++
+  bilinearScanlineTaps (buf2 0 0) 0 rp 0
+
+/-- the vertical set-up of one destination row: `(y1, y2, weight1, weight2)` as passed to the scanline function.
+    `y1 = vy >> 16`, `weight2 = pixman_fixed_to_bilinear_weight (vy)`; a zero `weight2` reuses row `y1` with weights
+    64/64; then PAD clamps the rows, NONE clamps them and zeroes the weight of a row outside, NORMAL wraps them -/
+def bilinearVertical (var : NearestVariant) (H vy : Int) : Int × Int × Int × Int :=
+  let y1 := fixedToInt vy
+  let w2 := bilinearWeight vy
+  let (y2, w1, w2) : Int × Int × Int := if w2 ≠ 0 then (y1 + 1, 128 - w2, w2) else (y1, 64, 64)
+  match var with
+  | .pad => (repeatCoord .pad y1 H, repeatCoord .pad y2 H, w1, w2)
+  | .none =>
+    let (w1, y1) := if y1 < 0 then (0, 0) else (w1, y1)
+    let (w1, y1) := if y1 ≥ H then (0, H - 1) else (w1, y1)
+    let (w2, y2) := if y2 < 0 then (0, 0) else (w2, y2)
+    let (w2, y2) := if y2 ≥ H then (0, H - 1) else (w2, y2)
+    (y1, y2, w1, w2)
+  | .normal => (repeatCoord .normal y1 H, repeatCoord .normal y2 H, w1, w2)
+  | .cover => (y1, y2, w1, w2)
 
 end Pixman.Model.FetchFast
